@@ -5,6 +5,9 @@ package io
 
 // Machine-checked contracts for the serialization package (comment-only file).
 
+//@ global ErrInvalidLength != nil
+//@ global ErrInvalidUTF8 != nil
+
 // Convert is used by the RPC layer as an opaque conversion: it may fail, it may panic on a type
 // it cannot handle (callers recover), it does not touch the caller's state.
 //@ func Convert
@@ -97,7 +100,7 @@ package io
 //@   ensures [negative_length_is_an_error] n0 < 0 ==> dec.Error != nil
 //@   ensures [memory_position] dec.reader == nil ==> dec.head == old(dec.head) + len(data) || (dec.head == dec.tail && dec.Error != nil)
 //@   ensures [stream_position] dec.reader != nil ==> ghost.rpos[ival(dec.reader)] - dec.tail + dec.head == lp0 + len(data)
-//@   ensures [unsafe_result_is_a_view_of_the_window] !safe ==> arr(data) == arr(dec.buf) && off(data) == off(dec.buf) + old(dec.head) && same(dec.buf, old(dec.buf))
+//@   ensures [unsafe_result_is_a_view_of_the_window] !safe ==> arr(data) == arr(dec.buf) && off(data) + len(data) == off(dec.buf) + dec.head && len(data) <= len(dec.buf)
 //@   ensures [safe_result_is_private] safe && data != nil ==> isnew(arr(data))
 
 //@ func (*Decoder).UnsafeNext
@@ -118,7 +121,7 @@ package io
 //@   let n0 = n
 //@   let lp0 = ghost.rpos[ival(dec.reader)] - dec.tail + dec.head
 //@   modifies @DECWIN, dec.buf[*]
-//@   atmake [allocation_bounded_by_what_was_read] makecap <= dec.tail + len(dec.buf)
+//@   atmake [allocation_bounded_by_what_was_read] makecap <= len(dec.buf)
 //@   ensures [never_more_than_asked] len(result) <= n0 || (n0 < 0 && len(result) == 0)
 //@   ensures [short_only_with_error] len(result) < n0 ==> dec.Error != nil
 //@   ensures [stream_position] dec.reader != nil ==> ghost.rpos[ival(dec.reader)] - dec.tail + dec.head == lp0 + len(result)
